@@ -569,7 +569,7 @@ class PatternAnalyzer:
             match op:
                 case pdl.AttributeOp():
                     if op.output not in inputs:
-                        if op.value:
+                        if op.value is not None:
                             # Create literal position for constant attribute
                             attr_pos = AttributeLiteralPosition(
                                 value=op.value, parent=None
@@ -2176,7 +2176,7 @@ class MatcherGenerator:
             # Prefer materializing constants directly when possible.
             old_op = old_value.owner
             new_val_op: Operation | None = None
-            if isinstance(old_op, pdl.AttributeOp) and old_op.value:
+            if isinstance(old_op, pdl.AttributeOp) and old_op.value is not None:
                 new_val_op = pdl_interp.CreateAttributeOp(old_op.value)
             elif isinstance(old_op, pdl.TypeOp) and old_op.constantType:
                 new_val_op = pdl_interp.CreateTypeOp(old_op.constantType)
